@@ -352,4 +352,5 @@ func TestVerifReplay_syncer_SetRunId(t *testing.T) {
 		return
 	}
 	fmt.Println("NOT-REPRODUCED")
+	fmt.Println("BOUNDED-OK cases=1")
 }
